@@ -16,7 +16,10 @@ EXPLANATION = (
     "planners, whose recursion follows AST/plan depth; (K7, information only) FFI entry points and catch_unwind. "
     "A division / remainder trap is discharged only when every path establishes divisor != 0 and (divisor != -1 or dividend != MIN). "
     "K5: the depth limit itself is at most 1000; (K6) every float-to-usize conversion in query-reachable code is bounded at its use or fed only from float fields whose every producer clamps raw values. "
-    "Slice-index bounds, allocation size and parser-loop progress are not decided.")
+    "(K8) every cycle of every loop in the five lexers and parsers passes a block that moves the input cursor, calls a function that "
+    "always consumes input on its success paths (whose error side cannot re-enter the loop), or pulls a finite iterator - otherwise "
+    "some input makes the loop spin for ever. "
+    "Slice-index bounds, allocation size and progress of a cursor primitive at the end of input are not decided.")
 ASSUMPTIONS = ["overflow checks are on in the profile the tests run in (dev/test), so an arithmetic Assert is a reachable panic",
                "rapid type analysis from the session entry points decides which operators are reachable"]
 
@@ -389,6 +392,10 @@ def run(ctx):
         else:
             ctx.ob("K5", "%s::parser#recursion-depth" % lang, True,
                    what="every recursion cycle passes a guarded entry (%s)" % sorted(short_id(x).split("::")[-1] for x in guarded), where="")
+
+    # ------------------------------------------------------------------ K8 loops of lexers and parsers make progress
+    from .c12_k8 import run_k8
+    run_k8(ctx, P)
 
     # ------------------------------------------------------------------ K6 floats that become indexes
     # A float converted to usize and used to index a sequence is in range only if the float is: discover every
